@@ -85,6 +85,7 @@ func (s refusingSP) Get(ctx context.Context, remote net.Addr) ([]byte, tq.Handle
 
 func runC20(t failer, c c20Case) (abandoned, rejected int) {
 	ev.Eval()
+	journal("C20", c)
 	fail := func(sig, format string, args ...interface{}) {
 		violation(t, "C20", "gauges", "C20:"+sig, c, format, args...)
 	}
